@@ -671,7 +671,7 @@ def run(ctx: Ctx) -> None:
     ctx.rule("C13.R1s", "ServiceType.bit_length_set (TypeError) is unreachable from definition input: every receiver that could be a service type is excluded by a checked guard", min_instances=2)
     facts.report(ctx)
 
-    rule_r3(ctx, g)
+    ctx.attempt(rule_r3, ctx, g)
 
     ctx.analysed["implicit_discharged"] = len(imp.discharged)
     ctx.assume("A-assert: %d assert statements in the input-handling modules are beliefs (python -O removes them)" % imp.assumed_asserts)
